@@ -181,7 +181,8 @@ Inductive afun :=
   | ACum                   (* np.cumsum *)
   | AFirst (k : nat)       (* lambda x: x[:k] *)
   | ARep                   (* lambda x: np.repeat(x, 2) *)
-  | AScalar                (* a callable reducer returning a scalar, e.g. np.mean *)
+  | AScalar                (* a callable reducer returning a scalar, e.g. np.mean: the reduced axis is kept with length 1
+                              (fixes/C01-apply-scalar-callable.patch) *)
   | ADict                  (* dict(func1d=np.diff): the documented dictionary form (works since /repo 4e9c4b6) *)
   | AInterp (nold nnew : nat). (* interpDimension's weights (nold x nnew) *)
 (* output length on an input of length n; None = raises *)
@@ -197,9 +198,6 @@ Definition afun_len (f : afun) (n : nat) : option nat :=
   | ADict => Some (n - 1)
   | AInterp nold nnew => if Nat.eqb n nold || Nat.eqb n 1 || Nat.eqb nold 1 then Some nnew else None
   end.
-(* does np.apply_along_axis drop the axis (scalar result)? *)
-Definition afun_drops (f : afun) : bool := match f with AScalar => true | _ => false end.
-
 (* ---- eval expressions (structural effect only) ------------------------------------------ *)
 Inductive expr :=
   | EScale (a : name)        (* N = a * 2 *)
@@ -432,7 +430,7 @@ Fixpoint apply_src (fs : list (name * afun)) (ds : list name) (sh : list nat) : 
       | None => Ok (n :: r)
       | Some g => match afun_len g n with
                   | None => Raise
-                  | Some m => Ok (if afun_drops g then r else m :: r)
+                  | Some m => Ok (m :: r)
                   end
       end
   | _, _ => Ok []
@@ -673,3 +671,15 @@ Definition unlim_kept_op (o : op) (T T' : dimtab) : bool :=
 Definition slice_unl_ok (f : file) (ss : list (name * sel)) : bool :=
   negb (Nat.ltb 1 (length (filter (fun p => is_arr (snd p)) ss)))
   || match lookup n_points (fdims f) with Some (_, true) => false | _ => true end.
+
+(* ---- documented domain of applyAlongDimensions (completion clause) ------------------------------------- *)
+(* func1d is a total 1-D function (every afun except interpDimension's internal weights function) *)
+Definition afun_total (g : afun) : bool := match g with AInterp _ _ => false | _ => true end.
+(* the library takes a 1-D variable named like the dimension as its coordinate: it has to be as long as the dimension *)
+Definition coord_conv (f : file) (d : name) : bool :=
+  match lookup d (fvars f), lookup d (fdims f) with
+  | Some v, Some (n, _) => match vshape v with [m] => Nat.eqb m n | _ => true end
+  | _, _ => true
+  end.
+Definition apply_dom (f : file) (fs : list (name * afun)) : bool :=
+  forallb (fun p => has (fst p) (fdims f) && afun_total (snd p) && coord_conv f (fst p)) fs.
